@@ -183,6 +183,8 @@ class RT(object):
           continue
         known.add(s.eid)
         if s.state == evmodel.LIVE and s.eid not in present:
+          if s.once and s.executing > 0:
+            continue          # a one-shot handler may be taken out before or after it runs
           self.out.fail("lost-subscription", "%r is subscribed according to the history but is not in the listener table" % (s,))
           self.mon.lose(s)
         elif s.state == evmodel.DEAD and s.eid in present:
@@ -198,8 +200,8 @@ class RT(object):
       d = self.deliveries.get(getattr(event, "tag", None))
       if d is None or d is not self.mon.top():
         raise HarnessError("handler invoked for an event that is not the innermost raise in progress")
-      self.check_presence()
       s = self.mon.invoke(d, (i, mname))
+      self.check_presence()
       self.sync_violations()
       sc = self.scripts[i]
       n = self.invocations[i]
@@ -272,6 +274,19 @@ class RT(object):
         api = "add_listener_type"
       else:
         ti = TYPE_NAMES.index(METHODS[m].rsplit("_", 1)[-1])
+    if self.in_use(si, ti, (i, METHODS[m])):
+      # the statement speaks of handlers, not subscriptions: one handler subscribed twice to the same
+      # (source, type) is an ambiguous zone.  Use another method of the same owner instead.
+      if api == "add_listener_infer":
+        self.flag("op-skipped-duplicate")
+        return None
+      for k in range(1, len(METHODS)):
+        if not self.in_use(si, ti, (i, METHODS[(m + k) % len(METHODS)])):
+          m = (m + k) % len(METHODS)
+          break
+      else:
+        self.flag("op-skipped-duplicate")
+        return None
     bm = self.bound(i, m)
     if bm is None:
       self.flag("op-skipped-owner-gone")
@@ -300,6 +315,7 @@ class RT(object):
                                     "msg": "subscribing to declared type %s was rejected: %r" % (name, e)})
         return None
       self.flag("undeclared-subscribe-rejected")
+      e.__traceback__ = None
       return e
     except HarnessError:
       raise
@@ -380,7 +396,7 @@ class RT(object):
     if s.state == evmodel.DEAD:
       self.flag("unsub-already-gone")
     for a in affected:
-      self.mon.unsubscribe([a], why + ("-weak" if a.weak and how.startswith("handler") else ""))
+      self.mon.unsubscribe([a], "unsub-byhandler-weak" if a.weak and how.startswith("handler") else why)
     self.flag("unsub-" + how)
     if self.depth:
       self.flag("reentrant-unsub")
@@ -406,9 +422,22 @@ class RT(object):
         f(T, d.id)
     except Exception as e:
       exc = e
+    try:
+      return self._judge_raise(d, exc, si, T, form, noerr, declared, nested)
+    finally:
+      # frame -> exception -> traceback -> frame cycles would keep owners alive until the cyclic collector runs
+      if exc is not None:
+        exc.__traceback__ = None
+      he = self.abort_exc.pop(d.id, None)
+      if he is not None:
+        he.__traceback__ = None
+      exc = he = None
+
+  def _judge_raise(self, d, exc, si, T, form, noerr, declared, nested):
+    RE = self.P["RE"]
     self.mon.end_raise(d)
     del self.deliveries[d.id]
-    handler_exc = self.abort_exc.pop(d.id, None)
+    handler_exc = self.abort_exc.get(d.id)
     self.flag("raise-nested" if nested else "raise")
     self.flag("raise-%s%s" % (form, "-noerr" if noerr else ""))
     if len(d.entries) >= 2:
@@ -468,6 +497,17 @@ class RT(object):
       self.flag("weak-handler-owner-died")
     return None
 
+  def in_use(self, si, ti, handler):
+    """True when subscribing `handler` to (si, ti) now would make invocations ambiguous."""
+    for s in self.mon.subs:
+      if s.src == si and s.etype == ti and s.handler == handler:
+        if s.state != evmodel.DEAD:
+          return True
+        for d in self.mon.stack:
+          if d.src == si and d.etype == ti:
+            return True
+    return False
+
   def invocations_active(self, i):
     return any(s.owner == i and s.executing > 0 for s in self.mon.subs)
 
@@ -491,6 +531,9 @@ class RT(object):
         ev = m[len(start):]
         if ev in TYPE_NAMES and self.mon.is_declared(si, TYPE_NAMES.index(ev)):
           expect.append((m, TYPE_NAMES.index(ev)))
+    if any(self.in_use(si, ti, (i, m)) for m, ti in expect):
+      self.flag("op-skipped-duplicate")
+      return None
     try:
       if api == "addListeners":
         r = src.addListeners(o, pfx, weak, prio)
@@ -530,15 +573,22 @@ def run_case(case):
   out = Outcome()
   rt = RT(case, out)
   sink = io.StringIO()
+  gc.disable()                    # object lifetimes must not depend on when the cyclic collector happens to run
   try:
     with contextlib.redirect_stdout(sink):
       for op in case["ops"]:
         rt.do_op(op, False)
   finally:
-    # break the cycles so that nothing of this case survives
-    rt.owners.clear()
+    # dismantle the case: drop the listener tables while every owner is still alive (no weakref
+    # callback runs against a half-dismantled source), then the owners
+    # (a CallProxy forms a cycle with its own weakref callbacks, so it outlives its table entry and its
+    # _forgetMe still runs when the owner dies: keep the per-type keys, empty the lists)
     for s in rt.sources:
-      s._eventMixin_handlers = {}
+      h = getattr(s, "_eventMixin_handlers", {})
+      for k in list(h):
+        h[k] = []
+    rt.owners.clear()
+    gc.enable()
   out.nontrivial = rt.nontrivial
   for f in sorted(rt.flags):
     out.label(f)
